@@ -215,6 +215,17 @@ IOSIM_TIERS = {
 }
 
 
+# value census (sim/iosim/src/census.rs): (side, profile tag, every32, wide blocks per type);
+# every32 = 1 enumerates all 2^32 values of u32 and of i32
+CENSUS_TIERS = {
+    "C08": {"quick": [("reader", "rel", 16, 64), ("reader", "dbg", 64, 16)], "thorough": [("reader", "rel", 1, 2048), ("reader", "dbg", 4, 512)]},
+    "C09": {
+        "quick": [("writer", "rel", 16, 64), ("writer", "dbg", 64, 16), ("reader", "rel", 64, 16)],
+        "thorough": [("writer", "rel", 1, 2048), ("writer", "dbg", 4, 512), ("reader", "rel", 4, 512)],
+    },
+}
+
+
 def iosim_replay(path):
     rec = json.load(open(path))
     profile = {"rel": "sim-rel", "dbg": "sim-dbg"}.get(rec.get("profile", "rel"), "sim-rel")
@@ -257,6 +268,27 @@ def check_iosim(prop, tier, seed):
     for tag, s in summaries.items():
         for v in s["violations"]:
             found.append({"class": v["class"], "detail": v["detail"], "replay": v["replay"]})
+
+    census = []
+    for side, tag, every32, wide in CENSUS_TIERS[prop][tier]:
+        binary, bs = cargo_build("iosim", {"rel": "sim-rel", "dbg": "sim-dbg"}[tag])
+        build_s += bs
+        out = os.path.join(WORK, "%s-%s-census-%s-%s.json" % (prop, tier, side, tag))
+        if os.path.exists(out):
+            os.remove(out)
+        cmd = [binary, "census", "--side", side, "--every32", str(every32), "--wide-blocks", str(wide), "--seed", str(seed), "--out", out, "--replay-dir", REPLAYS, "--tag", tag]
+        env = dict(ENV)
+        env["VERIF_WORKERS"] = str(workers())
+        rc, so, se = run(cmd, env=env, timeout=6 * 3600)
+        if rc != 0 or not os.path.exists(out):
+            # the item list is enumerable: a hang / abort inside an item is reported by the watchdog line
+            m = re.search(r"SIM-HANG index=(\d+)", se)
+            raise HarnessError("census (%s, %s) ended with status %s%s: %s" % (side, tag, rc, " at item %s" % m.group(1) if m else "", se[-400:]))
+        cs = json.load(open(out))
+        census.append(cs)
+        for v in cs["violations"]:
+            found.append({"class": v["class"], "detail": v["detail"], "replay": v["replay"]})
+
     real = settle(prop, found, iosim_replay)
     if len(summaries) < 2:
         # a profile's batch was cut short by a hang/crash of the code under test: no coverage summary
@@ -285,6 +317,15 @@ def check_iosim(prop, tier, seed):
         "buffer_size_seen": rel["buffer_size"],
         "samples": rel["samples"][:2] + dbg["samples"][:1],
         "build_s": round(build_s, 2),
+        "value_census": {
+            "what": "integers through the seams by enumeration: all values of the 8- and 16-bit types; u32 and i32 in 65536 blocks of 65536 consecutive values, every K-th block (K = 1: all 2^32 values of each); "
+            "for the 64/128-bit and pointer-sized types seeded blocks of 65536 consecutive values (straddling powers of ten, zero and the ends of the range among them) and the two-group family a*10^k+b with a, b in {10^j-1, 10^j, 10^j+1, 10^j/2, small}. "
+            "Writer side: rendered into a sink that accepts partially / interrupts, grouped as single values, tuples and vectors, compared with std formatting after flush and after drop. "
+            "Reader side: std-formatted text with seeded separators delivered in seeded cuts with Interrupted, read back as single values, tuples and read_vec, then is_eof.",
+            "batches": [{"side": c["side"], "profile": "sim-dbg" if c["debug_assertions"] else "sim-rel", "every_kth_block_of_32_bit_types": c["every32"], "wide_blocks_per_type": c["wide_blocks"], "items": c["items_executed"], "values": c["values"], "bytes": c["bytes"], "values_by_type": c["values_by_type"], "seam_calls": c["seam_calls"], "partial_transfers": c["partial_transfers"], "interrupted": c["interrupted"], "wall_s": c["wall_s"]} for c in census],
+            "values_total": sum(c["values"] for c in census),
+            "exhaustive_for": sorted(set(["u8", "i8", "u16", "i16"] + (["u32", "i32"] if any(c["every32"] == 1 for c in census) else []))),
+        },
     }
     if prop == "C08":
         cov["rule"] = (
@@ -538,12 +579,14 @@ def real_matrix(seed, count, big):
     for k in range(11, 17 if count < 500 else 21):
         for j in range(1 if count < 500 else 2):
             cfgs.append({"history": [0, 1, 5, 7][(k + j) % 4], "n": 3000 if k <= 16 else 1500, "mode": 1, "stride": 1 << k, "seed": rng.next() % (1 << 48)})
-    if count >= 500:
-        # thorough only (several seconds each): large power-of-two strides with enough own nodes
-        # for a short period of the sub-sampled low bits to repeat many times
-        for k in (14, 15, 16):
-            for h in (0, 7):
-                cfgs.append({"history": h, "n": 40_000, "mode": 1, "stride": 1 << k, "seed": rng.next() % (1 << 48)})
+    # large power-of-two strides with as many own nodes as a fixed budget of draws allows
+    # (2.6e9 draws, about 7 s of one core each; the runs go in parallel): the period of the low
+    # b bits sub-sampled at stride 2^k is 2^(b-k), so a short period needs either a big k or
+    # many own nodes - this block gives every k its largest affordable n
+    for k in range(14, 25):
+        n = max(150, min(100_000, 2_600_000_000 >> k))
+        for h in ((0, 7, 1, 5)[k % 4],) if count < 500 else (0, 7, (1, 5)[k % 2]):
+            cfgs.append({"history": h, "n": n, "mode": 1, "stride": 1 << k, "seed": rng.next() % (1 << 48)})
     for b in range(big):
         cfgs.append({"history": b % N_HISTORIES, "n": 1_000_000, "mode": [0, 1, 2][b % 3], "stride": rng.pick([2, 3, 8, 64]), "seed": rng.next() % (1 << 48)})
     return cfgs
